@@ -163,9 +163,11 @@ type Analysis struct {
 	sites map[*ssa.Function][]ssa.CallInstruction
 	// closures invoked synchronously: closure → creating MakeClosure
 	syncClosure map[*ssa.Function]*ssa.MakeClosure
-	goClosure   map[*ssa.Function]bool
-	entryPoint  map[*ssa.Function]bool
-	callees     map[ssa.CallInstruction][]*ssa.Function
+	// where a synchronous closure is activated: the calls that invoke it or receive it
+	syncActs   map[*ssa.Function][]ssa.Instruction
+	goClosure  map[*ssa.Function]bool
+	entryPoint map[*ssa.Function]bool
+	callees    map[ssa.CallInstruction][]*ssa.Function
 
 	Rounds     int
 	Unresolved []string
@@ -191,7 +193,7 @@ func New(p *core.Program) *Analysis {
 	a := &Analysis{P: p, ops: map[ssa.Instruction]*LockOp{},
 		mustEntry: map[*ssa.Function]LS{}, mayEntry: map[*ssa.Function]LS{},
 		mustIn: map[*ssa.BasicBlock]LS{}, mayIn: map[*ssa.BasicBlock]LS{},
-		sites: map[*ssa.Function][]ssa.CallInstruction{}, syncClosure: map[*ssa.Function]*ssa.MakeClosure{},
+		sites: map[*ssa.Function][]ssa.CallInstruction{}, syncClosure: map[*ssa.Function]*ssa.MakeClosure{}, syncActs: map[*ssa.Function][]ssa.Instruction{},
 		goClosure: map[*ssa.Function]bool{}, entryPoint: map[*ssa.Function]bool{},
 		callees: map[ssa.CallInstruction][]*ssa.Function{}, Classes: map[string]bool{}}
 	a.Funcs = p.RepoFuncs()
@@ -331,6 +333,7 @@ func (a *Analysis) buildCalls() {
 				return
 			}
 			sync, isGo := true, false
+			var acts []ssa.Instruction
 			var uses func(v ssa.Value)
 			uses = func(v ssa.Value) {
 				refs := v.Referrers()
@@ -343,7 +346,9 @@ func (a *Analysis) buildCalls() {
 					case *ssa.Go:
 						isGo = true
 					case ssa.CallInstruction:
-						_ = r
+						// invoked directly, or handed to a callee that invokes it: either way
+						// it runs while this call is in progress
+						acts = append(acts, r)
 					case *ssa.ChangeType:
 						// conversion to a named func type (filepath.WalkFunc, ...)
 						uses(r)
@@ -357,6 +362,7 @@ func (a *Analysis) buildCalls() {
 				a.goClosure[cl] = true
 			} else if sync {
 				a.syncClosure[cl] = mc
+				a.syncActs[cl] = acts
 			}
 		})
 	}
@@ -519,6 +525,22 @@ func (a *Analysis) fixpoint() {
 		}
 		for _, fn := range a.Funcs {
 			if mc, ok := a.syncClosure[fn]; ok {
+				if acts := a.syncActs[fn]; len(acts) > 0 {
+					// the locks held where it is activated (it may be created earlier, e.g. as
+					// the argument of a locking helper whose body was expanded in place)
+					first := true
+					for _, at := range acts {
+						if first {
+							newMust[fn] = a.MustAt(at)
+							newMay[fn] = a.MayAt(at)
+							first = false
+						} else {
+							newMust[fn] = meet(newMust[fn], a.MustAt(at))
+							newMay[fn] = join(newMay[fn], a.MayAt(at))
+						}
+					}
+					continue
+				}
 				newMust[fn] = a.MustAt(mc)
 				newMay[fn] = a.MayAt(mc)
 				continue
@@ -574,7 +596,16 @@ func (a *Analysis) Witness(fn *ssa.Function, classes []string, need Mode) string
 			return true
 		}
 		if mc, ok := a.syncClosure[f]; ok {
-			if !holds(a.MustAt(mc)) && walk(mc.Parent()) {
+			held := holds(a.MustAt(mc))
+			if acts := a.syncActs[f]; len(acts) > 0 {
+				held = true
+				for _, at := range acts {
+					if !holds(a.MustAt(at)) {
+						held = false
+					}
+				}
+			}
+			if !held && walk(mc.Parent()) {
 				path = append(path, a.P.FuncName(f)+" (closure created at "+a.P.InstrPos(mc)+")")
 				return true
 			}
